@@ -236,6 +236,14 @@ func (st *PState) Assume(t T) {
 	if t.S == "false" {
 		st.dead = true
 	}
+	// cheap syntactic infeasibility check: the negation of t is already assumed
+	neg := Not(t).S
+	for _, p := range st.pc {
+		if p.S == neg {
+			st.dead = true
+			break
+		}
+	}
 	st.pc = append(st.pc, t)
 }
 
@@ -273,6 +281,13 @@ func (st *PState) Name(hint string, t T) T {
 // TypeFacts assumes the facts implied by the Go type of v (integer ranges, non-nil strings,...).
 func (st *PState) TypeFacts(v T, t types.Type, depth int) {
 	if t == nil || depth > 3 {
+		return
+	}
+	if v.Sort == SCtx {
+		lo, hi := rangeOf(64, true)
+		st.Assume(And(App(SBool, "<=", lo, App(SInt, "ctx_height", v)), App(SBool, "<=", App(SInt, "ctx_height", v), hi),
+			App(SBool, "<=", lo, App(SInt, "ctx_time", v)), App(SBool, "<=", App(SInt, "ctx_time", v), hi),
+			Not(Eq(App(SBytes, "ctx_chainid", v), bnilT))))
 		return
 	}
 	if bits, signed, ok := intRange(t); ok && v.Sort == SInt {
@@ -427,4 +442,15 @@ func (st *PState) FlushSide() {
 		st.Assume(f)
 	}
 	st.ex.side = nil
+}
+
+const SStore = "(Array Bytes Bytes)"
+
+// stGet / stSet read and write one key of one module store inside a State term.
+func stGet(state, sid, key T) T {
+	return Select(Select(state, sid, SStore), key, SBytes)
+}
+
+func stSet(state, sid, key, val T) T {
+	return Store(state, sid, Store(Select(state, sid, SStore), key, val))
 }
